@@ -1764,6 +1764,11 @@ int QSexact_solver (mpq_QSdata * p_mpq,
 		mpf_QSfree_prob (p_mpf);
 		p_mpf = 0;
 	}
+	/* no precision level produced a certified answer; a definitive status
+	 * left behind by QSexact_basis_status (or by a failed retest path) has no
+	 * certificate and must not be reported */
+	if (*status == QS_LP_OPTIMAL || *status == QS_LP_INFEASIBLE)
+		*status = QS_LP_UNSOLVED;
 	/* ending */
 CLEANUP:
 	dbl_EGlpNumFreeArray (x_dbl);
